@@ -324,8 +324,11 @@ def nodeOk (R : RParser) (D : ToDom) (opts : Opts) (pt : TypeId) : Node → Bool
      | none => false
      | some (tag, pw) =>
        let o := wsOptionsFor (R.P.wsPre t) pw opts
-       kidsOk R D o t none kids && lastOk o kids && (!isWrapper D t a || kids.all Node.isLeaf) &&
-       (!listTags.contains tag || kids.all (fun k => !listTags.contains (prevTag R D k))))
+       kidsOk R D o t none kids && lastOk o kids &&
+       (!isWrapper D t a || (kids.all Node.isLeaf && kids.all (fun k => k.marks.isEmpty))) &&
+       (!listTags.contains tag || kids.all (fun k => !listTags.contains (prevTag R D k))) &&
+       -- marked children only where all children are leaves (the children of a textblock)
+       (kids.all Node.isLeaf || kids.all (fun k => k.marks.isEmpty)))
 def kidsOk (R : RParser) (D : ToDom) (opts : Opts) (pt : TypeId) (prev : Option (Node × String)) : List Node → Bool
   | [] => true
   | k :: ks =>
@@ -344,7 +347,7 @@ def rtOk (R : RParser) (D : ToDom) (doc : Node) : Bool :=
   (match doc with
    | .elem t a ms kids =>
      t == R.P.S.top && ms.isEmpty && !(R.P.S.nodeType t).isLeaf && attrsEq (computeAttrs (R.P.S.nodeType t).attrs []) a &&
-       kidsOk R D {} t none kids && lastOk {} kids
+       kidsOk R D {} t none kids && lastOk {} kids && kids.all (fun k => k.marks.isEmpty)
    | _ => false)
 
 mutual
